@@ -10,9 +10,11 @@ import z3
 
 from .values import *   # noqa
 from . import engine as ENG
+from . import bitform as BF
 Builtin = ENG.Builtin
 
 NOATTR = object()
+CUR_ENGINE = [None]
 
 
 def host(fn):
@@ -63,6 +65,37 @@ def int_and_const(x, c):
     return x - int_and_const(x, m)
 
 
+def iform(E, v):
+    """BitForm of an engine int value, or None."""
+    if isinstance(v, bool):
+        return BF.of(E.path, int(v))
+    if isinstance(v, int):
+        return BF.of(E.path, v)
+    if isinstance(v, EnumMember) and v.cls.is_int_enum:
+        return BF.of(E.path, v.value)
+    if isinstance(v, SBool):
+        return BF.normalize([('b', v.e)])
+    if isinstance(v, SInt):
+        return BF.of(E.path, v.e)
+    if is_z3(v):
+        return BF.of(E.path, v)
+    return None
+
+
+def from_form(E, segs):
+    c = BF.as_const(BF.normalize(segs))
+    if c is not None:
+        return c
+    return mk_int_keep(BF.to_term(E.path, segs))
+
+
+def mk_int_keep(e):
+    """like mk_int but does not re-simplify (keeps the registered canonical term)"""
+    if z3.is_int_value(e):
+        return e.as_long()
+    return SInt(e)
+
+
 def find_width(E, terms, limit=64):
     """Smallest W in (8,16,32,64) such that the path condition implies 0 <= t < 2^W for all terms."""
     for W in (8, 16, 32, 64):
@@ -83,6 +116,21 @@ def int_bitop(E, op, l, r):
         lc = int(l)
     if isinstance(r, bool):
         rc = int(r)
+    if not (lc is not None and rc is not None):
+        fa, fb = iform(E, l), iform(E, r)
+        opn = {ast.BitAnd: 'and', ast.BitOr: 'or', ast.BitXor: 'xor'}[type(op)]
+        if fa is not None and fb is not None:
+            res = BF.bitwise(opn, fa, fb)
+            if res is not None:
+                return from_form(E, res)
+        # x & negative constant  (= clear the bits of ~c)
+        for f_, c_ in ((fa, rc), (fb, lc)):
+            if f_ is not None and c_ is not None and c_ < 0 and isinstance(op, ast.BitAnd):
+                w = max(BF.width(f_), 1)
+                mask = ((1 << w) - 1) & c_
+                res = BF.bitwise('and', f_, BF.normalize([('c', mask, w)]))
+                if res is not None:
+                    return from_form(E, res)
     if lc is not None and rc is not None:
         if isinstance(op, ast.BitAnd):
             return lc & rc
@@ -147,14 +195,44 @@ def b_concat(a, b):
     def at(i, a=a, b=b, la=la):
         if isinstance(i, int):
             i = z3.IntVal(i)
+        c = known(z3.simplify(i < la))
+        if c is True:
+            return a.at(i)
+        if c is False:
+            return b.at(z3.simplify(i - la))
         return z3.If(i < la, a.at(i), b.at(i - la))
     return SBytes(n, at)
 
 
+def known(cond):
+    """True / False when the current path condition decides cond, else None (solver-aided simplification)."""
+    if z3.is_true(cond):
+        return True
+    if z3.is_false(cond):
+        return False
+    E = CUR_ENGINE[0]
+    if E is None or E.path is None:
+        return None
+    cache = E.path.__dict__.setdefault('_known', {})
+    key = (cond.get_id(), len(E.path.pc))
+    if key in cache:
+        return cache[key][1]
+    r = None
+    if E.path.check(z3.Not(cond)) == z3.unsat:
+        r = True
+    elif E.path.check(cond) == z3.unsat:
+        r = False
+    cache[key] = (cond, r)
+    return r
+
+
 def b_concat_all(parts):
-    r = lift_bytes(b'')
-    for p in parts:
-        r = b_concat(r, p)
+    parts = list(parts)
+    if not parts:
+        return lift_bytes(b'')
+    r = lift_bytes(parts[-1])
+    for p in reversed(parts[:-1]):
+        r = b_concat(p, r)
     return r
 
 
@@ -269,6 +347,10 @@ def b_from_ints(vals):
         if z3.is_int_value(i):
             k = i.as_long()
             return terms[k] if 0 <= k < len(terms) else z3.IntVal(0)
+        if len(terms) <= 16:
+            for k in range(len(terms)):
+                if known(i == k) is True:
+                    return terms[k]
         r = z3.IntVal(0)
         for k in range(len(terms) - 1, -1, -1):
             r = z3.If(i == k, terms[k], r)
@@ -280,15 +362,31 @@ def be_bytes(x, k):
     """k-byte big-endian encoding of Int term x assumed in range."""
     if isinstance(x, int):
         return lift_bytes(x.to_bytes(k, 'big'))
-    return b_from_ints([z3.simplify((x / _pow2(8 * (k - 1 - j))) % 256) for j in range(k)])
+    E = CUR_ENGINE[0]
+    f = BF.of(E.path, x)
+    if f is None:
+        f = [('x', x, 0, 8 * k)]
+    out = []
+    for j in range(k):
+        seg = BF.extract(f, 8 * (k - 1 - j), 8)
+        c = BF.as_const(seg)
+        out.append(c if c is not None else BF.to_term(E.path, seg))
+    return b_from_ints(out)
 
 
 def be_int(v, off, k):
     """big-endian unsigned int from k bytes of v at offset off (term)."""
     off = off if is_z3(off) else z3.IntVal(off)
+    E = CUR_ENGINE[0]
+    terms = [v.at(z3.simplify(off + j)) for j in range(k)]
+    forms = [BF.of(E.path, t) for t in terms]
+    if all(f is not None for f in forms):
+        segs = BF.concat_le([(f, 8) for f in reversed(forms)])
+        c = BF.as_const(segs)
+        return z3.IntVal(c) if c is not None else BF.to_term(E.path, segs)
     acc = z3.IntVal(0)
-    for j in range(k):
-        acc = acc * 256 + v.at(z3.simplify(off + j))
+    for t in terms:
+        acc = acc * 256 + t
     return acc
 
 
@@ -368,9 +466,9 @@ def struct_pack_vals(E, items, vals):
             E.throw('struct.error', 'argument out of range')
         if signed:
             x = z3.If(x < 0, x + (1 << (8 * sz)), x)
-        x = z3.simplify(x)
-        if z3.is_int_value(x):
-            parts.append(lift_bytes(x.as_long().to_bytes(sz, 'big')))
+        xs = z3.simplify(x)
+        if z3.is_int_value(xs):
+            parts.append(lift_bytes(xs.as_long().to_bytes(sz, 'big')))
         else:
             parts.append(be_bytes(x, sz))
     return b_concat_all(parts)
@@ -484,6 +582,16 @@ def make_cbitstruct_module(E):
         pos = 0
         for kind, w in items:
             shift = nbytes * 8 - pos - w
+            fw = BF.of(E.path, whole)
+            if fw is not None:
+                seg = BF.extract(fw, shift, w)
+                if kind == 'b':
+                    e = BF.eq_const(E.path, seg, 0)
+                    out.append((not e) if isinstance(e, bool) else mk_bool(z3.Not(e)))
+                else:
+                    out.append(from_form(E, seg))
+                pos += w
+                continue
             x = (whole / _pow2(shift)) % _pow2(w)
             if kind == 'b':
                 out.append(mk_bool(x != 0))
@@ -520,6 +628,18 @@ def make_cbitstruct_module(E):
                     E.throw('TypeError', 'failed to parse arguments')
             acc = acc * _pow2(w) + x
         acc = acc * _pow2(nbytes * 8 - total)
+        parts = []
+        okf = True
+        for (kind, w), v in zip(items, vals):
+            fv = BF.normalize([('b', B(E.truth(v)))]) if kind == 'b' else iform(E, v)
+            if fv is None:
+                okf = False
+                break
+            parts.append((fv, w))
+        if okf:
+            segs = BF.shl(BF.concat_le(list(reversed(parts))), nbytes * 8 - total)
+            c = BF.as_const(segs)
+            return be_bytes(c if c is not None else BF.to_term(E.path, segs), nbytes)
         return be_bytes(z3.simplify(acc), nbytes)
     return ExternModule('cbitstruct', dict(pack=Builtin('cbitstruct.pack', pack), unpack=Builtin('cbitstruct.unpack', unpack),
                                            unpack_from=Builtin('cbitstruct.unpack_from', unpack_from)))
@@ -753,6 +873,9 @@ def binop(E, op, l, r, inplace=False):
             lc = l.value if isinstance(l, EnumMember) else l
             if isinstance(lc, (int, bool)):
                 return (int(lc) << rc) if isinstance(op, ast.LShift) else (int(lc) >> rc)
+            fa = iform(E, l)
+            if fa is not None and rc >= 0:
+                return from_form(E, BF.shl(fa, rc) if isinstance(op, ast.LShift) else BF.extract(fa, rc))
             if isinstance(op, ast.LShift):
                 return mk_int(I(l) * _pow2(rc))
             return mk_int(I(l) / _pow2(rc))
@@ -794,6 +917,23 @@ def binop(E, op, l, r, inplace=False):
                     E.throw('ZeroDivisionError', 'division by zero')
                 return mk_real(a / b)
             raise Unsupported('real op %s' % type(op).__name__)
+        if isinstance(op, (ast.Add, ast.Mult, ast.FloorDiv, ast.Mod)):
+            fa, fb = iform(E, l), iform(E, r)
+            if fa is not None and fb is not None:
+                ca, cb = BF.as_const(fa), BF.as_const(fb)
+                res = None
+                if isinstance(op, ast.Add) and ca is None and cb is None:
+                    res = BF.add_disjoint(fa, fb)
+                elif isinstance(op, ast.Mult) and cb is not None and cb > 0 and (cb & (cb - 1)) == 0 and ca is None:
+                    res = BF.shl(fa, cb.bit_length() - 1)
+                elif isinstance(op, ast.Mult) and ca is not None and ca > 0 and (ca & (ca - 1)) == 0 and cb is None:
+                    res = BF.shl(fb, ca.bit_length() - 1)
+                elif isinstance(op, ast.FloorDiv) and cb is not None and cb > 0 and (cb & (cb - 1)) == 0 and ca is None:
+                    res = BF.extract(fa, cb.bit_length() - 1)
+                elif isinstance(op, ast.Mod) and cb is not None and cb > 0 and (cb & (cb - 1)) == 0 and ca is None:
+                    res = BF.extract(fa, 0, cb.bit_length() - 1)
+                if res is not None:
+                    return from_form(E, res)
         a, b = I(l), I(r)
         if isinstance(op, ast.Add):
             return mk_int(a + b)
@@ -917,6 +1057,13 @@ def values_equal(E, l, r):
             a = l.value if isinstance(l, EnumMember) else l
             b = r.value if isinstance(r, EnumMember) else r
             return a == b
+        for x_, c_ in ((l, r), (r, l)):
+            cc = c_.value if isinstance(c_, EnumMember) else c_
+            if isinstance(cc, int) and not isinstance(x_, (int, EnumMember)):
+                f_ = iform(E, x_)
+                if f_ is not None:
+                    e_ = BF.eq_const(E.path, f_, int(cc))
+                    return e_ if isinstance(e_, bool) else mk_bool(e_)
         return mk_bool(I(l) == I(r))
     if is_byteslike(l) and is_byteslike(r):
         return b_eq_code(E, l, r)
@@ -1351,8 +1498,8 @@ def int_attr(E, v, name):
                 E.throw('OverflowError', "can't convert negative int to unsigned")
             if not E.decide(mk_bool(x < _pow2(8 * length)), 'to_bytes-range'):
                 E.throw('OverflowError', 'int too big to convert')
-            x = z3.simplify(x)
-            return be_bytes(x.as_long() if z3.is_int_value(x) else x, length)
+            xs = z3.simplify(x)
+            return be_bytes(xs.as_long() if z3.is_int_value(xs) else x, length)
         return Builtin('int.to_bytes', to_bytes)
     if name == 'bit_length' and isinstance(v, int):
         return Builtin('int.bit_length', lambda: v.bit_length())
